@@ -15,7 +15,7 @@ S2 == [prot |-> [orig |-> <<>>, hdr |-> [EmptyHeader EXCEPT !.alg = <<Assigned("
        unprot |-> [EmptyHeader EXCEPT !.kid = <<50>>], sig |-> <<>>]
 S3 == [prot |-> [orig |-> <<<<160>>>>, hdr |-> EmptyHeader], unprot |-> EmptyHeader, sig |-> <<8, 8>>]     \* decoded, protected = h'a0'
 
-Algs == {<<>>, <<Assigned("Algorithm", "ES256")>>, <<Priv(Neg2I(65537))>>, <<TextL(<<120>>)>>}
+Algs == {<<>>, <<Assigned("Algorithm", "ES256")>>, <<Assigned("Algorithm", "Reserved")>>, <<Priv(Neg2I(65537))>>, <<TextL(<<120>>)>>}
 Crits == {<<>>, <<Assigned("HeaderParameter", "Alg")>>, <<Assigned("HeaderParameter", "Kid"), TextL(<<97>>)>>}
 Cts == {<<>>, <<Assigned("CoapContentFormat", "Cbor")>>, <<TextL(<<97, 47, 98>>)>>, <<TextL(<<65, 47, 98, 59, 32, 81, 61, 90>>)>>}     \* "a/b", "A/b; Q=Z"
 Kids == {<<>>, <<1>>}
